@@ -19,7 +19,7 @@ SPEC = {
                    "PyMatterSim.utils.coarse_graining:time_average"],
     "floors": {"spatial_average": 300, "grid_positions": 60, "grid_values": 2000, "window_values": 300, "window_index": 300,
                "window_length": 100, "unequal_grid_cases": 20, "exact_multiple_cases": 15,
-               "file_replaced_with_preserved_time_stamp": 15},
+               "file_replaced_with_preserved_time_stamp": 15, "blurring_in_other_units_of_length": 10},
     "rule": ("spatial average: ranks 0/1/2 x own neighbour files (ragged, multi-frame) x Nmax; Gaussian blurring: grids with "
              "equal and unequal point numbers per axis incl. 1- and 2-point axes in 2D/3D x sigma, cut x masks x box origins x "
              "ranks 0/1/2 x 1..3 frames; time average: windows 1..T-1 incl. periods that are exact multiples of the frame "
@@ -112,16 +112,26 @@ def case_blur(ctx, rng, wd, unequal, big=False):
         d, T, N = 3, 1, 300
     ckind = "ortho" if (big or rng.random() < 0.7) else str(rng.choice(["tri+", "tri-", "tri"]))
     cell = gc.make_cell(rng, d, ckind, lmin=3.0, lmax=9.0)
+    # another unit of length (R10): cell, width and cut-off scale together; the blurred value scales like 1/sqrt(2 pi sigma^2)
+    lu = float(rng.choice([1e-9, 1e-10, 1e5])) if (not big and rng.random() < 0.12) else 1.0
+    if lu != 1.0:
+        ctx.count("blurring_in_other_units_of_length")
+
+    def scaled(c_):
+        c_ = dict(c_)
+        c_["H"], c_["origin"], c_["tilt"] = c_["H"] * lu, np.asarray(c_["origin"]) * lu, tuple(t_ * lu for t_ in c_["tilt"])
+        return c_
+    cell = scaled(cell)
     # the box (lengths and origin) may change from frame to frame (NPT runs, deformation): every frame has its own grid
     vary = T > 1 and rng.random() < 0.5
-    cells = [cell] + [gc.make_cell(rng, d, ckind, lmin=3.0, lmax=9.0) if vary else cell for _ in range(T - 1)]
+    cells = [cell] + [scaled(gc.make_cell(rng, d, ckind, lmin=3.0, lmax=9.0)) if vary else cell for _ in range(T - 1)]
     if vary and rng.random() < 0.5:
         # the SAME cell (lengths and tilt) translated / re-centred between frames (change_box, fix recenter, concatenated runs):
         # only the bounds move
         cells = [cell]
         for _t in range(T - 1):
             c_ = dict(cell)
-            c_["origin"] = cell["origin"] + rng.uniform(-4, 4, size=d)
+            c_["origin"] = cell["origin"] + rng.uniform(-4, 4, size=d) * lu
             cells.append(c_)
         ctx.count("same_cell_translated_between_frames")
     if ckind != "ortho":
@@ -137,9 +147,9 @@ def case_blur(ctx, rng, wd, unequal, big=False):
     if big:
         ng = np.array([37, 23, 11])          # a grid of ~10^4 points (block-wise evaluation boundaries)
         ctx.count("grids_over_9000_points")
-    sigma = float(rng.uniform(0.3, 2.0))
+    sigma = float(rng.uniform(0.3, 2.0)) * lu
     L = np.min([np.diag(c["H"]) for c in cells], axis=0)
-    cut = float(rng.uniform(0.8, 0.49 * L.min() / 0.5 * 0.5))
+    cut = float(rng.uniform(0.8 * lu, 0.49 * L.min() / 0.5 * 0.5))
     cut = min(cut, 0.49 * L.min())
     ppp = gc.random_mask(rng, d)
     gc.unwrap_in_place(rng, snaps.snapshots, [c["H"] for c in cells], ppp)       # unwrapped coordinates (particles outside the bounds the grid spans)
@@ -187,7 +197,7 @@ def case_blur(ctx, rng, wd, unequal, big=False):
         return
     okp = True
     for t in range(T):
-        okp &= bool(np.abs(gp[t] - expgs[t]).max() <= 1e-12 * max(1.0, np.abs(expgs[t]).max()))
+        okp &= bool(np.abs(gp[t] - expgs[t]).max() <= 1e-12 * max(float(L.max()), np.abs(expgs[t]).max()))       # relative to the cell (R10)
     if not ctx.check("grid_positions", okp, key + "/grid",
                      lambda: f"grid is not the full Cartesian product in row-major order: {len(np.unique(np.round(gp[0], 9), axis=0))} distinct points of {npts}", info):
         return
@@ -196,12 +206,12 @@ def case_blur(ctx, rng, wd, unequal, big=False):
         dR = (expgs[t][:, None, :] - pos[None, :, :]).reshape(-1, d)
         _v, dist, _ = geom.min_image_vectors(dR, cells[t]["H"], ppp, nimg=1 if ckind == "ortho" else 2)
         dist = dist.reshape(npts, N)
-        if np.any(np.abs(dist - cut) < 1e-9):
+        if np.any(np.abs(dist - cut) < 1e-9 * cut):
             ctx.skip("grid_values")
             continue
         wgt = np.where(dist < cut, np.exp(-dist ** 2 / (2 * sigma ** 2)) / np.sqrt(2 * np.pi * sigma ** 2), 0.0)
         exp = np.tensordot(wgt, A[t], axes=(1, 0))
-        ctx.close("grid_values", gv[t], exp, key + "/values", rtol=1e-9, atol=1e-12, scale=max(1.0, np.abs(exp).max()),
+        ctx.close("grid_values", gv[t], exp, key + "/values", rtol=1e-9, atol=1e-12 * max(1e-300, float(np.abs(exp).max())), scale=max(1e-300, float(np.abs(exp).max())),
                   what=f"frame {t}: Gaussian-weighted sums", data=info)
     if out:
         ok2 = np.array_equal(np.load(out + "_positions.npy"), gp) and np.array_equal(np.load(out + "_properties.npy"), gv)
